@@ -1,0 +1,10 @@
+//go:build verif
+
+package object
+
+import fdiff "github.com/go-git/go-git/v6/plumbing/format/diff"
+
+// VerifFileStats exposes getFileStatsFromFilePatches to the verification harness.
+func VerifFileStats(fps []fdiff.FilePatch) FileStats {
+	return getFileStatsFromFilePatches(fps)
+}
